@@ -193,6 +193,8 @@ func Prepare(c *Case, graphFn func(steps []dag.Step) (*scheduler.ExecutionGraph,
 			steps[i].Stdout = "/dev/null"
 		case 6:
 			steps[i].Stdout, steps[i].Stderr = "/dev/null", "/dev/null"
+		case 7:
+			steps[i].Stdout = "/dev/full"
 		}
 	}
 	pause := time.Duration(c.PauseUS) * time.Microsecond
